@@ -486,8 +486,103 @@ func apiFacts(repo, out string) {
 		}
 		sb.WriteString("\n  " + leanStr(c))
 	}
+	sb.WriteString("]\n\n/-- what the gate's code can reach besides the request it is handed: the variables of\n    ConfigMiddlewareWithSpec declared outside the request handler, and the functions, methods and variables of\n    package kproapi used by it or by a function it uses -/\ndef gateReads : List String := [")
+	for i, c := range gateReads(p) {
+		if i > 0 {
+			sb.WriteString(", ")
+		}
+		sb.WriteString(leanStr(c))
+	}
 	sb.WriteString("]\n\nend Shutter.Generated.ApiFacts\n")
 	write(filepath.Join(out, "ApiFacts.lean"), sb.String())
+}
+
+// gateReads lists, sorted, the names the access gate depends on apart from the request: starting from
+// ConfigMiddlewareWithSpec, every function or method of the package that is referenced (transitively), every
+// package-level variable these reference, and every variable declared in such a function outside the request
+// handler literal (func(http.ResponseWriter, *http.Request)) but used inside a function literal.
+func gateReads(p *packages.Package) []string {
+	decls := map[types.Object]*ast.FuncDecl{}
+	for _, f := range p.Syntax {
+		if isTestFile(p.Fset, f) {
+			continue
+		}
+		for _, d := range f.Decls {
+			if fd, ok := d.(*ast.FuncDecl); ok && fd.Body != nil {
+				decls[p.TypesInfo.Defs[fd.Name]] = fd
+			}
+		}
+	}
+	var root types.Object
+	for o, fd := range decls {
+		if fd.Name.Name == "ConfigMiddlewareWithSpec" && fd.Recv == nil {
+			root = o
+		}
+	}
+	if root == nil {
+		return []string{"ConfigMiddlewareWithSpec not found"}
+	}
+	seen := map[string]bool{}
+	done := map[types.Object]bool{}
+	var visit func(o types.Object)
+	visit = func(o types.Object) {
+		if done[o] {
+			return
+		}
+		done[o] = true
+		fd := decls[o]
+		// function literals of the declaration, to tell which variables are captured
+		var lits []*ast.FuncLit
+		ast.Inspect(fd.Body, func(n ast.Node) bool {
+			if fl, ok := n.(*ast.FuncLit); ok {
+				lits = append(lits, fl)
+			}
+			return true
+		})
+		inside := func(pos token.Pos, n ast.Node) bool { return n.Pos() <= pos && pos < n.End() }
+		ast.Inspect(fd, func(n ast.Node) bool {
+			id, ok := n.(*ast.Ident)
+			if !ok {
+				return true
+			}
+			obj := p.TypesInfo.Uses[id]
+			if obj == nil || obj.Pkg() != p.Types {
+				return true
+			}
+			switch x := obj.(type) {
+			case *types.Func:
+				if _, ok := decls[x]; ok && x != o {
+					seen[x.Name()] = true
+					visit(x)
+				}
+			case *types.Var:
+				if x.IsField() {
+					return true
+				}
+				if x.Parent() == p.Types.Scope() {
+					seen[x.Name()] = true
+					return true
+				}
+				// a variable of this declaration used inside a function literal that does not declare it
+				if !inside(x.Pos(), fd) {
+					return true
+				}
+				for _, fl := range lits {
+					if inside(id.Pos(), fl) && !inside(x.Pos(), fl) {
+						seen[x.Name()] = true
+					}
+				}
+			}
+			return true
+		})
+	}
+	visit(root)
+	names := []string{}
+	for n := range seen {
+		names = append(names, n)
+	}
+	sort.Strings(names)
+	return names
 }
 
 // sqlFacts writes the text of every sqlc query of the database packages the fakes stand in for
